@@ -21,6 +21,10 @@
 //   - otherwise all paths must perform the same operations on the word in the same order;
 //     they may differ only in whether the Work / Handlers markers occur (fast paths).
 //
+// If the ordinary paths cannot be folded (they do not perform the same operations on the
+// word: a fast path skipping a store, a release moved into a defer), each of them becomes a
+// program of its own next to the panicking paths, and the path-set theorem decides them one by one.
+//
 // Anything else is an extraction FAILURE (non-zero exit): a plain (non-atomic) read or
 // write of the status field anywhere in the package, an atomic write of it outside the two
 // entry points, a failing path that still writes, paths that disagree, a status operation
@@ -1011,7 +1015,13 @@ func (x *executor) execStmt(st *state, stmt ast.Stmt) []*state {
 		// arguments are evaluated now; only their events matter
 		cur := []*state{st}
 		if _, isLit := s.Call.Fun.(*ast.FuncLit); !isLit {
-			cur = states(x.evalExprs(st, s.Call.Args))
+			args := s.Call.Args
+			if kind, rest := x.p.statusOp(x.file(st), s.Call); kind != "" {
+				// defer atomic.StoreInt32(&g.status, v): the address of the word is not an access;
+				// only the remaining operands are evaluated now, the operation itself runs at exit
+				args = rest
+			}
+			cur = states(x.evalExprs(st, args))
 		}
 		for _, c := range cur {
 			if c.ctrl == ctrlPanic {
@@ -2083,7 +2093,46 @@ func extract(p *pkgInfo, x *executor, recvType, fn string) extraction {
 	}
 	out := extraction{paths: len(rs), kept: len(touching) + len(faulty)}
 	exitLoads := map[token.Pos]bool{}
-	out.prog = fold(fn, touching, exitLoads)
+	var foldErr *extractFailure
+	func() {
+		defer func() {
+			if r := recover(); r != nil {
+				ef, ok := r.(extractFailure)
+				if !ok {
+					panic(r)
+				}
+				foldErr = &ef
+			}
+		}()
+		out.prog = fold(fn, touching, exitLoads)
+	}()
+	if foldErr != nil {
+		// The ordinary paths do not perform the same operations on the word (a fast path that
+		// skips a store, say), so they are not ONE program. Each is then a program of its own:
+		// the longest successful one stands for the call, the others join the per-path list
+		// that the path-set theorem quantifies over (C19_mutex_path_set needs every one good).
+		hasWork := func(p path) bool {
+			for _, e := range p.events {
+				if e.kind == "work" {
+					return true
+				}
+			}
+			return false
+		}
+		sort.SliceStable(touching, func(i, j int) bool {
+			if wi, wj := hasWork(touching[i]), hasWork(touching[j]); wi != wj {
+				return wi
+			}
+			return len(statusEvents(touching[i])) > len(statusEvents(touching[j]))
+		})
+		out.prog, _, _ = pathProgram(touching[0], exitLoads)
+		for _, pth := range touching[1:] {
+			if prog, _, _ := pathProgram(pth, exitLoads); len(prog) > 0 {
+				faulty = append(faulty, pth)
+			}
+		}
+		out.notes = append(out.notes, fmt.Sprintf("%s: the ordinary paths are not one program (%s at %s); every path is checked as a program of its own", fn, foldErr.msg, where(foldErr.pos)))
+	}
 	haveWork, haveHandlers := false, false
 	for _, a := range out.prog {
 		haveWork = haveWork || a.Kind == "Work"
